@@ -625,6 +625,11 @@ def run(ctx):
   if rf.violated != 'AsFoundSound':
     raise common.MachineryError('RegridLon_asfound.cfg was expected to refute AsFoundSound')
   ctx.notes['design_level_counterexample'] = 'RegridLon_asfound.cfg: AsFoundSound violated (end-by-end phase alignment, repaired in /repo)'
+  rf2 = ctx.tlc('RegridLon', 'RegridLon_asfound2.cfg', expect_violation=True, tag='asfound2', coverage=False, workers=4)
+  if rf2.violated != 'TwoCellAsFoundSound':
+    raise common.MachineryError('RegridLon_asfound2.cfg was expected to refute TwoCellAsFoundSound')
+  ctx.notes['design_level_counterexample_two_cells'] = ('RegridLon_asfound2.cfg: TwoCellAsFoundSound violated (cell bounds of a grid '
+                                                        'with two longitudes coincide: half-period tie, repaired in /repo)')
   ctx.require_actions(rv, ['SigmaBoundaries', 'Overlap', 'Normalize', 'Regrid'])
   ctx.require_actions(rl, ['Bounds', 'Overlap', 'Normalize', 'Apply'])
   ctx.require_actions(ra, ['Bounds', 'Overlap', 'Normalize', 'Apply'])
